@@ -550,14 +550,23 @@ func TestC20(t *testing.T) {
 			if mode >= 7 {
 				kind = []string{"xml", "json", "html"}[rapid.IntRange(0, 2).Draw(t, "kind")]
 			}
-			f := cliFile{Kind: "file", Path: fmt.Sprintf("%sf%d%s", dirs[rapid.IntRange(0, len(dirs)-1).Draw(t, "dir")], i, exts[kind])}
+			ext := exts[kind]
+			if rapid.IntRange(0, 5).Draw(t, "extCase") == 0 {
+				ext = map[string]string{".xml": ".XML", ".json": ".Json", ".html": ".HTM"}[ext]
+			}
+			stem := "f"
+			if rapid.IntRange(0, 3).Draw(t, "oddName") == 0 {
+				stem = []string{"sp ace", "é", "a:b", ".hid", "x.y", "colon: x", "q'uote", "tab\tx", "#h", "a&b"}[rapid.IntRange(0, 9).Draw(t, "stem")]
+				st.Class("unusual file name")
+			}
+			f := cliFile{Kind: "file", Path: fmt.Sprintf("%s%s%d%s", dirs[rapid.IntRange(0, len(dirs)-1).Draw(t, "dir")], stem, i, ext)}
 			switch rapid.IntRange(0, 11).Draw(t, "special") {
 			case 0:
 				f.Data = genCLIFileData(t, kind, true) // malformed
 			case 1:
 				f.Kind = "dangling"
 			case 2:
-				f.Path = strings.TrimSuffix(f.Path, exts[kind]) + []string{".txt", "", ".svg"}[rapid.IntRange(0, 2).Draw(t, "oddExt")]
+				f.Path = strings.TrimSuffix(f.Path, ext) + []string{".txt", "", ".svg"}[rapid.IntRange(0, 2).Draw(t, "oddExt")]
 				f.Data = genCLIFileData(t, "xml", false)
 			default:
 				f.Data = genCLIFileData(t, kind, false)
